@@ -198,7 +198,7 @@ func runC11(c c11Case) Verdict {
 	return cv
 }
 
-var visitScriptOpts = scriptOpts{maxNodes: 5, maxDepth: 3, maxBody: 3, tracking: true, visitText: true, noCommands: true, endWithJump: 4, router: true,
+var visitScriptOpts = scriptOpts{maxNodes: 5, maxDepth: 3, maxBody: 3, tracking: true, visitText: true, noCommands: true, endWithJump: 4, router: true, shadow: true,
 	extraStmt: func(g *scriptGen, depth int) *Stmt {
 		switch rapid.IntRange(0, 5).Draw(g.t, "visitstmt") {
 		case 0:
